@@ -30,7 +30,13 @@ RULE = ('(a) exhaustive unit vectors: every group/descriptor of the 9 shipped '
         'distinct by (library, mapping, key form).'
         ' Argument forms: mapping keys as str / Group objects / '
         'defaultdict; counts as Python int / float, numpy int64 / int32 / '
-        'float64, Fraction. ')
+        'float64, Fraction. '
+        ' '
+        'Rounds 17-19: in-memory libraries in which further descriptors'
+        ' carry the data of an existing group (same object / same property'
+        ' set / equal copy); mappings of 257-1030 descriptors; copies and'
+        ' pickles of estimates; estimates from a shared library and'
+        ' evaluation of a shared estimator from four threads.')
 ASSUMPTIONS = [
     'temperatures only inside the estimate\'s reported range (C06 owns the '
     'outside)',
